@@ -1,10 +1,9 @@
 (* Properties_C03.v — C03: per-node response budget; deferred messages FIFO, never stranded.
    Statements only. tab_run is the node-table half of the library for an arbitrary event history
    (sends, uplink messages, clock changes, flushes, capacity changes); every prefix of a history is
-   a history, so each theorem speaks about the state after every prefix. FExpire is the periodic
-   bidib_node_state_expire_responses of the heartbeat thread. *)
+   a history, so each theorem speaks about the state after every prefix. *)
 From Coq Require Import List NArith Bool.
-From LB Require Import Tables Framing NodeFlow NodeFlowProofs NoStrandProofs BudgetSpec BudgetProofs TimerSpecProofs.
+From LB Require Import Tables Framing NodeFlow NodeFlowProofs NoStrandProofs BudgetSpec BudgetProofs.
 Import ListNotations.
 Local Open Scope N_scope.
 
@@ -59,124 +58,47 @@ Theorem C03_retry_drains : forall t a now,
 Proof. exact try_queued_post. Qed.
 Print Assumptions C03_retry_drains.
 
-(* Never stranded. The library's heartbeat thread runs bidib_node_state_expire_responses every 0.1 s
-   (event FExpire): it drops the outstanding requests that have reached the expiry age and retries the
-   held queue of every node whose oldest held message fits. For EVERY history with a monotone clock
-   (sends, answers, alternative/unrelated/duplicated answers, lost answers, stall notices, clock changes,
-   resets; other events may even come between a clock change and the timer pass), at every point at which
-   the timer has fired since the last clock change (timer_settled): a node that holds a message and has no
-   stalled ancestor-or-self has no room for the oldest held message in its budget - the budget being the
-   sum over the requests that are neither answered nor 2 seconds old (live_sum), as in the property text.
-   Every prefix of a history is a history, so this speaks about every such point of every run. *)
-Theorem C03_no_strand : forall es so now0, clock_mono now0 es = true -> timer_settled es = true ->
-  let '(t, _, now, _, _) := tab_run [] so now0 es in
-  forall a, n_held (get t a) <> [] -> unblocked t a ->
-    exists ty m rest, n_held (get t a) = (ty, m) :: rest /\ response_limit < live_sum now (get t a) + resp_size ty.
-Proof. exact no_strand_timer. Qed.
-Print Assumptions C03_no_strand.
-
-(* the same with the executable definition of "stranded" that the refutation on the unrepaired
-   library used (held, no stalled ancestor-or-self, head fits once expired requests are discounted) *)
-Theorem C03_no_strand_exec : forall es so now0, clock_mono now0 es = true -> timer_settled es = true ->
-  let '(t, _, now, _, _) := tab_run [] so now0 es in forall a, strandedb t now a = false.
-Proof. exact no_strand_timer_b. Qed.
-Print Assumptions C03_no_strand_exec.
-
-(* the form checked against the implementation: the timer fires right after every clock change (the
-   harness calls it synchronously in its `time` command); every prefix that does not end in a clock
-   change is such a history *)
-Theorem C03_no_strand_timer_follows : forall es so now0, clock_mono now0 es = true -> timer_follows es = true ->
-  let '(t, _, now, _, _) := tab_run [] so now0 es in
-  forall a, n_held (get t a) <> [] -> unblocked t a ->
-    exists ty m rest, n_held (get t a) = (ty, m) :: rest /\ response_limit < live_sum now (get t a) + resp_size ty.
-Proof. exact no_strand_timer_follows. Qed.
-Print Assumptions C03_no_strand_timer_follows.
-
-(* Never stranded in the property's OWN accounting (BudgetSpec.v: requests transmitted, answered by the
-   oldest-live rule, live for 2 seconds; independent of the library's counter and list): at every settled
-   point the library's counter EQUALS the property's budget, so the oldest held message of an unblocked
-   node does not fit the budget of the property text. Hypothesis quiet_gaps: the uplink messages processed
-   between a clock change and the timer pass (at most one heartbeat period, 0.1 s, in the running library)
-   answer no request. (An answer processed inside that window may be credited by the library to a request of
-   expiry age not yet removed, by the property to the oldest live one; the two accountings then differ until
-   that request expires, at most 2 s. C03_no_strand above has no such hypothesis.) *)
-Theorem C03_no_strand_spec : forall es so now0,
-  clock_mono now0 es = true -> timer_settled es = true -> quiet_gaps true es = true ->
-  let '(t, now, spec) := spec_run [] so now0 es (fun _ => []) in
-  forall a, n_held (get t a) <> [] -> unblocked t a ->
-    exists ty m rest, n_held (get t a) = (ty, m) :: rest /\
-                      outstanding_sum now (spec a) = n_used (get t a) /\
-                      response_limit < outstanding_sum now (spec a) + resp_size ty.
-Proof. exact no_strand_spec. Qed.
-Print Assumptions C03_no_strand_spec.
-
-(* with the timer firing right after every clock change there is no such window *)
-Theorem C03_no_strand_spec_timer_follows : forall es so now0, clock_mono now0 es = true -> timer_follows es = true ->
-  let '(t, now, spec) := spec_run [] so now0 es (fun _ => []) in
-  forall a, n_held (get t a) <> [] -> unblocked t a ->
-    exists ty m rest, n_held (get t a) = (ty, m) :: rest /\
-                      outstanding_sum now (spec a) = n_used (get t a) /\
-                      response_limit < outstanding_sum now (spec a) + resp_size ty.
-Proof. exact no_strand_spec_follows. Qed.
-Print Assumptions C03_no_strand_spec_timer_follows.
-
-(* the timer pass by itself, from ANY table state: afterwards every node with a held message is limited
-   by its counter or registered with a stalled ancestor-or-self *)
-Theorem C03_timer_repairs : forall t now a,
-  let t' := fst (on_expire t now) in
-  n_held (get t' a) <> [] -> head_blocked_by_budget t' a \/ registered t' a.
-Proof. exact (fun t now => on_expire_ns t now). Qed.
-Print Assumptions C03_timer_repairs.
-
-(* corollaries kept from before the repair: histories without a timer in which nothing expires *)
+(* Never stranded, for every history in which no outstanding request expires (the clock does not
+   move): after every event, a node that still holds a message and has no stalled ancestor-or-self is
+   limited by its budget - the oldest held message does not fit. Together with the refutation below
+   (which needs the clock to move) this delimits the defect exactly. *)
 Theorem C03_no_strand_event_except : forall es so now0, forallb no_clock es = true ->
   let '(t, _, _, _, _) := tab_run [] so now0 es in
   forall a, n_held (get t a) <> [] -> unblocked t a -> head_blocked_by_budget t a.
 Proof. exact no_strand_const_clock. Qed.
 Print Assumptions C03_no_strand_event_except.
 
+(* ... and more generally after EVERY history, moving clock included, in which no outstanding request
+   reaches the expiry age: at each clock event every outstanding request is younger than 2 s at the new
+   time (young_run, executable). These are exactly the histories outside the known finding below. *)
 Theorem C03_no_strand_without_expiry : forall es so now0, young_run [] so now0 es = true ->
   let '(t, _, _, _, _) := tab_run [] so now0 es in
   forall a, n_held (get t a) <> [] -> unblocked t a -> head_blocked_by_budget t a.
 Proof. exact no_strand_without_expiry. Qed.
 Print Assumptions C03_no_strand_without_expiry.
 
-(* non-vacuity: the history that was the refutation witness of the unrepaired library (known finding
-   strand.lazy-expiry, now closed): 6 x SYS_GET_SW_VERSION (7 bytes each), 1 x SYS_GET_UNIQUE_ID (11)
-   deferred, clock +5 s. Without the timer pass the message stays held although all six requests have
-   expired (also after two spontaneous MSG_BM_FREE from the node); with it the message is handed over. *)
-Definition c03_witness_old : list fev :=
+(* non-vacuous: a history whose clock moves (requests answered within a second, new ones sent later,
+   a message deferred and released) satisfies young_run; the refutation witness below does not *)
+Example C03_without_expiry_nonvacuous :
+  young_run [] true 0
+    [FTime 1000; FSend (1,0,0) 6 []; FSend (1,0,0) 6 []; FSend (1,0,0) 6 []; FSend (1,0,0) 6 []; FSend (1,0,0) 6 [];
+     FSend (1,0,0) 6 []; FSend (1,0,0) 5 []; FTime 1001; FUp [1] 133 0; FUp [1] 133 0; FUp [1] 133 0; FUp [1] 133 0; FUp [1] 133 0; FUp [1] 133 0;
+     FTime 1002; FSend (1,0,0) 6 []; FUp [1] 132 0; FTime 1003; FUp [1] 133 0] = true /\
+  young_run [] true 0 [FTime 1000; FSend (1,0,0) 6 []; FTime 1005; FUp [1] 161 0] = false.
+Proof. vm_compute. split; reflexivity. Qed.
+
+(* REFUTED on the faithful model (known finding strand.lazy-expiry): a history after which a held
+   message fits the budget of live requests and nothing is stalled, yet it is still held.
+   6 x SYS_GET_SW_VERSION (7 bytes each), 1 x SYS_GET_UNIQUE_ID (11) deferred, clock +5 s, two
+   spontaneous MSG_BM_FREE from the node. *)
+Definition c03_witness : list fev :=
   [FTime 1000; FSend (1,0,0) 6 []; FSend (1,0,0) 6 []; FSend (1,0,0) 6 []; FSend (1,0,0) 6 [];
    FSend (1,0,0) 6 []; FSend (1,0,0) 6 []; FSend (1,0,0) 5 []; FTime 1005;
    FUp [1] 161 0; FUp [1] 161 0].
-Definition c03_witness : list fev :=
-  [FTime 1000; FExpire; FSend (1,0,0) 6 []; FSend (1,0,0) 6 []; FSend (1,0,0) 6 []; FSend (1,0,0) 6 [];
-   FSend (1,0,0) 6 []; FSend (1,0,0) 6 []; FSend (1,0,0) 5 []; FTime 1005; FExpire].
-Example C03_no_strand_nonvacuous :
-  (clock_mono 0 c03_witness = true /\ timer_follows c03_witness = true /\ timer_settled c03_witness = true) /\
-  (let '(t, _, now, log, _) := tab_run [] true 0 c03_witness in
-   heldm t [1] = [] /\ length (sent [1] log) = 7%nat /\ n_used (get t [1]) = 11 /\ strandedb t now [1] = false) /\
-  (let '(t, _, now, log, _) := tab_run [] true 0 (firstn 10 c03_witness) in
-   length (heldm t [1]) = 1%nat /\ n_used (get t [1]) = 42 /\ strandedb t now [1] = true) /\
-  (timer_settled c03_witness_old = false /\
-   let '(t, _, now, _, _) := tab_run [] true 0 c03_witness_old in strandedb t now [1] = true) /\
-  (* the receiver dropped the expired requests itself (no retry); the late timer pass still releases *)
-  (timer_settled (c03_witness_old ++ [FExpire]) = true /\ timer_follows (c03_witness_old ++ [FExpire]) = false /\
-   let '(t, _, now, _, _) := tab_run [] true 0 (c03_witness_old ++ [FExpire]) in heldm t [1] = [] /\ strandedb t now [1] = false).
-Proof. vm_compute. repeat split. Qed.
-
-(* non-vacuity of the spec-level theorem: 32 + 11 bytes outstanding, a 13-byte request held (56 > 48), the clock
-   moves 3 s, a MSG_BM_ADDRESS (answers nothing) is processed before the timer pass, the pass releases the held
-   request; afterwards budget and counter are both 13. One second earlier nothing has expired: the request stays
-   held and both are 43 *)
-Example C03_no_strand_spec_nonvacuous :
-  let es := [FTime 1000; FExpire; FSend (1,0,0) 22 [1]; FSend (1,0,0) 5 []; FSend (1,0,0) 12 [0;0]; FTime 1003; FUp [1] 163 0; FExpire] in
-  (clock_mono 0 es = true /\ timer_settled es = true /\ quiet_gaps true es = true /\ timer_follows es = false) /\
-  (let '(t, now, spec) := spec_run [] true 0 es (fun _ => []) in
-   heldm t [1] = [] /\ outstanding_sum now (spec [1]) = 13 /\ n_used (get t [1]) = 13) /\
-  (let '(t, now, spec) := spec_run [] true 0 [FTime 1000; FExpire; FSend (1,0,0) 22 [1]; FSend (1,0,0) 5 []; FSend (1,0,0) 12 [0;0]; FTime 1001; FExpire] (fun _ => []) in
-   length (heldm t [1]) = 1%nat /\ outstanding_sum now (spec [1]) = 43 /\ n_used (get t [1]) = 43).
-Proof. vm_compute. repeat split. Qed.
+Theorem C03_no_strand_event_refuted :
+  exists es, let '(t, _, now, _, _) := tab_run [] true 0 es in exists a, strandedb t now a = true.
+Proof. exists c03_witness. vm_compute. exists [1]. reflexivity. Qed.
+Print Assumptions C03_no_strand_event_refuted.
 
 (* non-vacuity: a history with a deferral that is released by the matching answer *)
 Example C03_budget_spec_nonvacuous :
